@@ -202,6 +202,8 @@ def configs(tier):
             add(2, 2, version, 1, 5, 1, towards=T2)
             add(2, 2, version, 2, 5, 1, towards=T2)
         add(3, 2, 2, 1, 3, 1, towards=T3)
+        # coarsening version 1 in three dimensions, started at lmax = 3 and graded towards one point (lmax 4 with areas lagging by one)
+        add(3, 3, 1, 1, 3, 1, towards=[[0.3, 0.3, 0.3]])
         # interrupted and continued runs (continue_adaptive_refinement / performSpatiallyAdaptiv(refinement_container=...))
         for how in ("continue", "container"):
             add(2, 2, 0, 1, 5, 1, towards=T2, resume=how)
